@@ -522,6 +522,20 @@ def run(chk):
             failures.append({"case": {x: c[x] for x in ("grammar", "text", "user", "types", "queries")}, "impl": {x: o[x] for x in o if x != "tree"},
                              "what": bad, "tags": tags})
         chk.stat("finding class (attribute named parent)" if c["parent_attr"] else "regular")
+        exp = c.get("expect")
+        if exp:
+            # witnesses of the known finding: the implementation must show the symptom the Coq theorem states
+            got_err = o.get("load_error") or o.get("mm_error")
+            ok = True
+            if "load_error_prefix" in exp:
+                ok = bool(got_err) and got_err.startswith(exp["load_error_prefix"])
+            else:
+                ok = not got_err and o.get("parents") == exp["parents"] and o.get("get_model") == exp["get_model"]
+            chk.stat("finding witness replayed")
+            if not ok:
+                disagreements.append({"case": {x: c[x] for x in ("grammar", "text", "user", "types", "queries")},
+                                      "impl": {x: o[x] for x in o if x != "tree"},
+                                      "model": "theorem %s predicts %r" % (exp["theorem"], {x: exp[x] for x in exp if x != "theorem"})})
         if "tree" not in o:
             chk.count(c["text"], nontrivial=False)
             continue
